@@ -68,7 +68,7 @@ def pick_names(rng, pool, n, avoid=()):
 
 
 def gen_grammar(rng, adversarial=0.3, max_nts=6, max_terms=5, allow_empty_terminals=True,
-                behaviour=False, bias_lalr=0.6, motifs=0.45):
+                behaviour=False, bias_lalr=0.6, motifs=0.45, wide=0.05, payload_like_nt=0.0, empty_helper_enum=0.0):
     """Random grammar.  behaviour=True: payload types come from the fixed menu the
     compiled-parser harness knows how to build, and every type derives Debug."""
     g = Grammar()
@@ -98,8 +98,11 @@ def gen_grammar(rng, adversarial=0.3, max_nts=6, max_terms=5, allow_empty_termin
         r = rng.random()
         if r < 0.18 and lead is None:
             return ('empty',)
-        n = rng.choice([1, 1, 2, 2, 3, 3, 4])
+        n = rng.choice([1, 1, 2, 2, 3, 3, 4]) if rng.random() >= wide else rng.randint(9, 14)
         syms = [sym() for _ in range(n)]
+        if n >= 9 and tnames:
+            # a wide production: mostly terminals, so that it does not drown in conflicts
+            syms = [('T', rng.choice(tnames)) if rng.random() < 0.8 else s for s in syms]
         if lead is not None:
             syms[0] = lead
         if rng.random() < 0.5:
@@ -140,7 +143,30 @@ def gen_grammar(rng, adversarial=0.3, max_nts=6, max_terms=5, allow_empty_termin
         g.tenum_attrs.append('#[derive(Clone, Debug)]')
     if rng.random() < motifs:
         add_motifs(rng, g, behaviour)
+    if g.terminals and rng.random() < payload_like_nt:
+        # a payload type that is spelled like one of the declared nonterminals
+        retype_like_nonterminal(rng, g)
+    if rng.random() < empty_helper_enum:
+        # an enum without variants whose name is one of the generator's own helper names
+        used = {n['name'] for n in g.nts} | {t for t, _ in g.terminals} | {g.tenum}
+        cands = [h for h in ('Node', 'State', 'Action', 'RuleKind', 'Quasiterminal', 'QuasiterminalKind', 'NonterminalKind', 'Eof', 'S')
+                 if h not in used]
+        if cands:
+            g.nts.insert(rng.randint(0, len(g.nts)), dict(name=rng.choice(cands), kind='enum', attrs=(['#[derive(Debug)]'] if behaviour else []), variants=[]))
     return g
+
+
+def retype_like_nonterminal(rng, g):
+    """Give one terminal a payload type spelled like a declared nonterminal N.  N must not itself hold
+    that terminal (payloads are stored unboxed: it would be a type of infinite size, a user error)."""
+    pairs = []
+    for i, (t, _) in enumerate(g.terminals):
+        for nt in g.nts:
+            if not any(('T', t) in fs_syms(fs) for _, fs in nt['variants']):
+                pairs.append((i, nt['name']))
+    if pairs:
+        i, name = rng.choice(pairs)
+        g.terminals[i] = (g.terminals[i][0], name)
 
 
 def _fresh_nt(g, base):
